@@ -667,6 +667,37 @@ pub fn ess_from_chainstats(sample: ArrayView3<f32>, chain_stats: &[&ChainStats])
     ess(sample, within.view(), var.view())
 }
 
+/// Verification-only wrappers around private functions of this module.
+#[cfg(feature = "verif-hooks")]
+pub mod verif {
+    use super::*;
+
+    /// Wrapper around the private brute-force autocovariance.
+    pub fn verif_autocov_bf(sample: ArrayView2<f32>) -> Array2<f32> {
+        autocov_bf(sample)
+    }
+
+    /// Wrapper around the private FFT autocovariance.
+    pub fn verif_autocov_fft(sample: ArrayView2<f32>) -> Array2<f32> {
+        autocov_fft(sample)
+    }
+
+    /// Wrapper around the private `autocov` (with the row-count switch).
+    pub fn verif_autocov(sample: ArrayView2<f32>) -> Array2<f32> {
+        autocov(sample)
+    }
+
+    /// Wrapper around the private `splitcat`.
+    pub fn verif_splitcat(sample: ArrayView3<f32>) -> Array3<f32> {
+        splitcat(sample)
+    }
+
+    /// Wrapper around the private `withinvar`.
+    pub fn verif_withinvar(sample: ArrayView3<f32>) -> (Array1<f32>, Array1<f32>) {
+        withinvar(sample)
+    }
+}
+
 #[cfg(test)]
 mod tests {
     use std::io::Write;
